@@ -332,6 +332,11 @@ func runHistory(c *vf.Ctx, h hdef, vname string, mk func() io.Reader, stream []b
 				sawPartialCross = true
 			}
 			pos += n
+			// the caller owns buf: it may wipe or reuse it before the next Read, and the
+			// reader's chaining state must not live in it
+			for i := range buf {
+				buf[i] = 0x3C
+			}
 		} else {
 			sawFail = true
 			if err == nil {
